@@ -42,7 +42,7 @@ REGISTRY["C04"] = dict(level="proof", cross_oracles=[P.x_hash_layout_independent
                        oracles=[P.o_spec, P.o_ledger, P.o_views, P.o_no_defect_panic])
 REGISTRY["C05"] = dict(level="proof", theorems=T("C05", "C05_drop_range", "C05_truncate_back", "C05_truncate_front", "C05_clear", "C05_drain_drop", "C05_fill"), cases=P.cases_C05, projection=proj_behaviour,
                        oracles=[P.o_ledger, P.o_views, P.o_no_defect_panic])
-REGISTRY["C06"] = dict(level="proof", theorems=T("C06", "C06_clone_in_extend_from_slice", "C06_closure", "C06_iterator", "C06_eq_readonly", "C06_clone_in_fill_spare", "C06_clone_in_fill"), cases=P.cases_C06, projection=proj_behaviour,
+REGISTRY["C06"] = dict(level="proof", theorems=T("C06", "C06_clone_in_extend_from_slice", "C06_closure", "C06_iterator", "C06_eq_readonly", "C06_clone_in_fill_spare", "C06_clone_in_fill", "C06_clone_in_clone_from", "C06_clone_in_clone"), cases=P.cases_C06, projection=proj_behaviour,
                        oracles=[P.o_leak, P.o_views, P.o_no_defect_panic])
 REGISTRY["C07"] = dict(level="proof", theorems=T("C07", "C07_get", "C07_front", "C07_back", "C07_nth_back", "C07_index", "C07_slot_holds", "C07_slots_distinct", "C07_as_slices", "C07_contents", "C07_write", "C07_make_contiguous"), cases=P.cases_C07, projection=proj_physical,
                        oracles=[P.o_spec, P.o_views, P.o_ledger, P.o_documented_panics])
